@@ -329,6 +329,10 @@ pub fn run_one(cfg: &ForestCfg, run_index: u64, run_seed: u64, known: &KnownFile
     };
 
     let mut queued: std::collections::VecDeque<Op> = std::collections::VecDeque::new();
+    let bulk_first = rng.pct(5);
+    if bulk_first {
+        stats.inc("swarm/store_with_many_registered_names");
+    }
     let total_steps = prof.steps + prof.clients; // one initial tree per client
     for stepno in 0..total_steps {
         // ---- scheduler
@@ -349,7 +353,12 @@ pub fn run_one(cfg: &ForestCfg, run_index: u64, run_seed: u64, known: &KnownFile
             }
         };
         // ---- the client's next call
-        let op = if stepno == 0 && !prof.initial_cons {
+        let op = if stepno == 0 && bulk_first {
+            // the store is not new: another client has registered a few dozen (or hundred) names
+            // already, so that what this run registers gets ids around 64 / 128 / 256
+            let n = *rng.pick(&[61u32, 62, 63, 125, 126, 127, 253, 254, 255]);
+            Op::RegisterBulk { namespaces: n, prefixes: if rng.pct(50) { n } else { 0 }, names: if rng.pct(50) { n } else { 0 } }
+        } else if stepno == 0 && !prof.initial_cons {
             Op::SetConsolidation { on: false }
         } else if stepno < prof.clients {
             let fragment = rng.pct(25);
